@@ -76,7 +76,87 @@ def corner_hit(d, a):
     return False
 
 
-def signature(d, a=None):
+def _frac(h):
+    from fractions import Fraction
+    import struct
+    v = struct.unpack('>d', bytes.fromhex(h))[0]
+    return Fraction(v) if v == v and v not in (float("inf"), float("-inf")) else None
+
+
+def self_noding(line):
+    """Does the union of this operand's own elements have to create a node?  True iff two segments of the operand meet in a point
+    that is not an end point of both (proper crossing, T-junction, collinear overlap), or a point element / line end lies in the
+    interior of a segment of another element.  Exact rational arithmetic on the bit patterns.  This is the structural condition
+    under which StructuredCollection's unionByDimension re-nodes the operand (and, with non-representable crossing points, moves
+    its linework): without it the operand's linework goes into the overlay unchanged."""
+    if line is None:
+        return False
+    try:
+        g = gtok.parse(line)[1]
+    except Exception:
+        return False
+    segs, pts = [], []           # (element id, p, q), (element id, p)
+    eid = [0]
+    def seq_pts(sq):
+        out = []
+        for p in sq[1]:
+            x, y = _frac(p[0]), _frac(p[1])
+            if x is None or y is None:
+                return None
+            out.append((x, y))
+        return out
+    def walk(e):
+        tag = e[0]
+        if tag in ("L", "R", "C", "P"):
+            ps = seq_pts(e[1])
+            eid[0] += 1
+            if ps is None:
+                return
+            if tag == "P":
+                pts.extend((eid[0], p) for p in ps)
+            else:
+                segs.extend((eid[0], ps[i], ps[i + 1]) for i in range(len(ps) - 1) if ps[i] != ps[i + 1])
+        elif tag == "Y":
+            eid[0] += 1
+            me = eid[0]
+            for r in e[1]:
+                ps = seq_pts(r)
+                if ps:
+                    segs.extend((me, ps[i], ps[i + 1]) for i in range(len(ps) - 1) if ps[i] != ps[i + 1])
+        else:
+            for x in e[1]:
+                walk(x)
+    walk(g)
+    if len(segs) > 400:
+        return True
+    def orient(a, b, c):
+        v = (b[0] - a[0]) * (c[1] - a[1]) - (b[1] - a[1]) * (c[0] - a[0])
+        return (v > 0) - (v < 0)
+    def inbox(a, b, p):
+        return min(a[0], b[0]) <= p[0] <= max(a[0], b[0]) and min(a[1], b[1]) <= p[1] <= max(a[1], b[1])
+    for i in range(len(segs)):
+        e1, a, b = segs[i]
+        for j in range(i + 1, len(segs)):
+            e2, c, d = segs[j]
+            o1, o2, o3, o4 = orient(a, b, c), orient(a, b, d), orient(c, d, a), orient(c, d, b)
+            if o1 * o2 < 0 and o3 * o4 < 0:
+                return True                                   # proper crossing
+            if o1 == 0 and o2 == 0:                           # collinear: overlap in more than a point?
+                lo1, hi1 = min(a, b), max(a, b); lo2, hi2 = min(c, d), max(c, d)
+                if max(lo1, lo2) < min(hi1, hi2):
+                    return True
+                continue
+            for p, (u, v) in ((c, (a, b)), (d, (a, b)), (a, (c, d)), (b, (c, d))):
+                if orient(u, v, p) == 0 and inbox(u, v, p) and p != u and p != v:
+                    return True                               # T-junction: an end point in the interior of the other segment
+    for e1, p in pts:
+        for e2, a, b in segs:
+            if orient(a, b, p) == 0 and inbox(a, b, p) and p != a and p != b:
+                return True
+    return False
+
+
+def signature(d, a=None, b=None):
     """Structural key of a failing record, used to match KNOWN_FINDINGS.json.
     class clip: + cornerHit (a vertex of the input lies exactly on a corner of the clip rectangle)
     class : pointset (a face / 1-cell / node of the arrangement has the wrong membership; dir = missing | extra)
@@ -97,6 +177,11 @@ def signature(d, a=None):
     near = d.get("near") == "1"
     if not sig["gc"]:
         sig["nearIncidence"] = near
+    if sig["gc"] and sig["class"] == "pointset" and d["op"] in ("int", "uni", "dif", "sym"):
+        # the recorded collection defects of the binary operations all come from StructuredCollection re-noding an operand on its own:
+        # they need an operand whose own elements meet away from common end points
+        v = d.get("variant", "")
+        sig["selfNoding"] = self_noding(a) if v in ("aa", "ae", "ea", "a") else (self_noding(a) or self_noding(b))
     if sig["gc"] or not near or sig["class"] != "pointset":
         sig["op"] = d["op"]
         if sig["class"] == "pointset" and not sig["gc"]:
@@ -254,7 +339,7 @@ def run(ctx):
             a, b, ops = split_case(case)
             for m in got.split(" ;; "):
                 d = parse_msg(m)
-                sig0 = signature(d, a)
+                sig0 = signature(d, a, b)
                 key = json.dumps(sig0, sort_keys=True)
                 classes[key] = classes.get(key, 0) + 1
                 if sig0 in seen:
@@ -267,7 +352,7 @@ def run(ctx):
                 if shrunk < (8 if quick else 20) and d["clause"] != "area":
                     sa, sb, sd = shrink(exe, a, b, d, budget=90 if quick else 300)
                     shrunk += 1
-                sig = signature(sd, sa)
+                sig = signature(sd, sa, sb)
                 if sig != sig0 and sig in seen:
                     continue
                 if sig not in seen:
